@@ -508,7 +508,7 @@ def requests_parts():
     ]
 
 def unit():
-    return Unit('server', prelude=['base.rs', 'time.rs', 'delay_queue.rs', 'server_models.rs', 'trace_models.rs', 'transport.rs', 'server_queues.rs', 'cancellations.rs'],
+    return Unit('server', prelude=['base.rs', 'time.rs', 'delay_queue.rs', 'server_models.rs', 'hash_iter.rs', 'trace_models.rs', 'transport.rs', 'server_queues.rs', 'cancellations.rs'],
                 parts=server_table.parts() + base_channel_parts() + throttle_parts() + requests_parts(), rules=RULES,
                 fx_fns=server_table.FX_CALLS + [r'(?:inner|channel)\s*\.poll_next\(', r'\.pump_read\('],
                 fx_prims=[r'request_cancellation\.cancel\(', r'response_tx\.send\('], fx_type='SFx',
